@@ -1203,6 +1203,8 @@ func copyMapC(m map[ssa.Value]*closureVal) map[ssa.Value]*closureVal {
 	return n
 }
 
+func (f *Frame) inlineDepthOK() bool { return true }
+
 // backEdge is called when control leaves block `from` towards loop header `h` on a back edge.
 func (f *Frame) backEdge(from *ssa.BasicBlock, h *ssa.BasicBlock, cond string, st *State) {
 	li := f.loops[h]
@@ -1222,6 +1224,12 @@ func (f *Frame) backEdge(from *ssa.BasicBlock, h *ssa.BasicBlock, cond string, s
 				break
 			}
 		}
+	}
+	if f == f.top || f.inlineDepthOK() {
+		// vacuity guard: the back edge must be reachable under everything assumed so far, else
+		// every inv-preserve obligation of this loop holds trivially
+		g.addObl(&Obligation{Name: f.oblName("cover", "back-edge/"+f.loopLabel(li)), Kind: "cover-loop", Fn: fnDisplay(f.top.fn), Goal: cond, ExpectSat: true, TimeoutS: 3,
+			Pos: g.fset.Position(f.curPos), Text: "the back edge of this loop is reachable"})
 	}
 	env := f.specEnv(st, h, 0, subst, li)
 	// assumed invariants hold throughout the loop: they are hypotheses at the back edge too
